@@ -15,6 +15,7 @@
 -/
 import ArcheModel.Ops
 import ArcheGen.Facts
+import ArcheProofs.Props.C04
 import ArcheProofs.Lemmas.Arr
 import ArcheProofs.Lemmas.NatMask
 
@@ -324,6 +325,68 @@ open ArcheGen.Facts
 theorem width_ok : maskTotalBits < 2 ^ bitPoolAvailableBits ∧ maskTotalBits < 2 ^ bitPoolLengthBits ∧
     maskTotalBits ≤ 2 ^ bitPoolNextBits ∧ maskTotalBits ≤ 2 ^ bitPoolBitsElemBits ∧ maskTotalBitsTiny ≤ maskTotalBits := by
   decide
+
+
+/-! ## the lock mask over the regenerated `Mask` operations -/
+
+/-- `lockMask.Lock / Unlock / IsLocked / Reset` and `World.lock / unlock / IsLocked / checkLocked`
+    are the expected compositions of `bitPool` and `Mask` calls (statements regenerated from
+    ecs/util.go and ecs/world*.go on every run) -/
+theorem lockMask_bodies_expected : lockMaskBodies = [
+    ("lockMask.Lock", ["lock := m.bitPool.Get()", "m.locks.Set(id(lock), true)", "return lock"]),
+    ("lockMask.Unlock", ["if !m.locks.Get(id(l)) { panic(\"unbalanced unlock. Did you close a query that was already iterated?\") }",
+      "m.locks.Set(id(l), false)", "m.bitPool.Recycle(l)"]),
+    ("lockMask.IsLocked", ["return !m.locks.IsZero()"]),
+    ("lockMask.Reset", ["m.locks = Mask{}", "m.bitPool.Reset()"]),
+    ("World.lock", ["return w.locks.Lock()"]),
+    ("World.unlock", ["w.locks.Unlock(l)"]),
+    ("World.IsLocked", ["return w.locks.IsLocked()"]),
+    ("World.checkLocked", ["if w.IsLocked() { panic(\"attempt to modify a locked world\") }"])] := by
+  decide
+
+/-- default build: `IsLocked` (= `!locks.IsZero()`) is true exactly when some lock bit is set —
+    for every one of the 256 bits, in whichever mask word it lies -/
+theorem isLocked_iff_256 (m : ArcheGen.M256.Mask) : (!m.IsZero) = true ↔ ∃ j, C04.B256.mem m j = true := by
+  rw [Bool.not_eq_true', ← Bool.not_eq_true, C04.B256.isZero_iff]
+  constructor
+  · intro h
+    apply Classical.byContradiction
+    intro hn
+    apply h
+    intro j
+    cases hj : C04.B256.mem m j
+    · rfl
+    · exact absurd ⟨j, hj⟩ hn
+  · rintro ⟨j, hj⟩ h
+    rw [h j] at hj; cases hj
+
+/-- default build: taking lock bit `b` makes the world locked; releasing it leaves exactly the
+    other held bits -/
+theorem lock_bit_256 (m : ArcheGen.M256.Mask) (b : BitVec 8) :
+    (!(m.Set b true).IsZero) = true ∧ (m.Set b true).Get b = true ∧
+    (∀ j, j ≠ b.toNat → C04.B256.mem ((m.Set b true).Set b false) j = C04.B256.mem m j) := by
+  refine ⟨(isLocked_iff_256 _).2 ⟨b.toNat, by rw [C04.B256.set_spec]; simp⟩, by rw [C04.B256.get_eq_mem, C04.B256.set_spec]; simp, ?_⟩
+  intro j hj
+  rw [C04.B256.set_spec, if_neg hj, C04.B256.set_spec, if_neg hj]
+
+/-- `tiny` build: the same for the 64 lock bits -/
+theorem isLocked_iff_64 (m : ArcheGen.M64.Mask) : (!m.IsZero) = true ↔ ∃ j, C04.B64.mem m j = true := by
+  rw [Bool.not_eq_true', ← Bool.not_eq_true, C04.B64.isZero_iff]
+  constructor
+  · intro h
+    apply Classical.byContradiction
+    intro hn
+    apply h
+    intro j
+    cases hj : C04.B64.mem m j
+    · rfl
+    · exact absurd ⟨j, hj⟩ hn
+  · rintro ⟨j, hj⟩ h
+    rw [h j] at hj; cases hj
+
+theorem lock_bit_64 (m : ArcheGen.M64.Mask) (b : BitVec 8) (hb : b.toNat < 64) :
+    (!(m.Set b true).IsZero) = true ∧ (m.Set b true).Get b = true := by
+  refine ⟨(isLocked_iff_64 _).2 ⟨b.toNat, by rw [C04.B64.set_spec _ _ _ _ hb]; simp⟩, by rw [C04.B64.get_eq_mem _ _ hb, C04.B64.set_spec _ _ _ _ hb]; simp⟩
 
 /-! ## every structural operation is rejected on a locked world, leaving it unchanged -/
 open World
